@@ -234,8 +234,12 @@ package keeper
 //@   prop C13 C20
 
 //@ // store iteration is not modelled: these accessors are assumed total (no claim about what they return)
+//@ // store iteration is not modelled: the history list is assumed to be the recorded entries (each agrees with the ghost view)
 //@ func (k Keeper) GetAllMinterStateHistory(ctx) (list)
 //@   trusted
+//@   ensures forall i: int :: {list[i]} 0 <= i && i < len(list) ==> list[i] != nil && $histPresent[list[i].SequenceId]
+//@     && list[i].AmountMinted == $histMinted[list[i].SequenceId] && list[i].RemainderFromPreviousMinter == $histRemFrom[list[i].SequenceId]
+//@     && list[i].RemainderToMint == $histRemTo[list[i].SequenceId]
 
 //@ // ---- C20: entry points under the no-panic sweep (no functional claim here: they must not panic for any field values) ----
 //@ func (k Keeper) Params(c, req) (r0, r1)
